@@ -89,6 +89,21 @@ def run(ctx):
         shr = [c for (fld, c) in m if fld == (PS, f) and L.is_shrinker(c)]
         ctx.check(bool(shr), "C12-R1", "truncates:" + f, "rollback truncates %s" % f,
                   "ParserState::rollback no longer truncates the history vector `%s`" % f, site=rb.where())
+    # every *successful* exit of ParserState::rollback has passed every restore write: an early
+    # `return Ok(())` (e.g. for n_bytes == 0, which still carries an EOS flush) skips the restore
+    ok_rets = [bi for bi, si, st in rb.statements() if st["s"] == "assign" and st["p"] == [0] and st["r"]["rv"] == "agg"
+               and isinstance(st["r"]["kind"], dict) and st["r"]["kind"].get("variant") == "Ok"]
+    if ctx.floor("C12-R1", "Ok returns of ParserState::rollback", len(ok_rets), 1):
+        be = P.block_effects(rb)
+        for (a, f) in sorted(R):
+            wb = [bi for bi, (w, m, r) in be.items() if (a, f) in w or any(x[0] == (a, f) for x in m)]
+            reach = rb.reachable(0, cut_blocks=wb)
+            bad = [o for o in ok_rets if o in reach]
+            ctx.check(bool(wb) and not bad, "C12-R1", "all-success-paths-restore:" + f,
+                      "every path to an Ok return of rollback passes the restore of %s" % f,
+                      "ParserState::rollback has a success path (Ok return at %s) that skips the restore of `%s` — e.g. an early "
+                      "return for a zero-byte rollback, which still has to undo an EOS flush" % (rb.where(bad[0]) if bad else "?", f),
+                      site=rb.where(bad[0]) if bad else rb.where())
     # a field added to ParserState must be classified: every field is either in D∪R or the table
     adt = P.adts.get(PS)
     if adt:
